@@ -31,9 +31,19 @@
 #include "snoopy.h"
 
 #include <arpa/inet.h>
+#include <fcntl.h>
+#include <paths.h>
 #include <stdio.h>
 #include <string.h>
+#include <unistd.h>
 #include <utmp.h>
+
+
+
+/*
+ * Path to the utmp file to search (only the test suite points this somewhere else)
+ */
+static const char * snoopy_util_utmp_filePath = _PATH_UTMP;
 
 
 
@@ -50,26 +60,33 @@
  */
 int snoopy_util_utmp_findUtmpEntryByLine (char const * const ttyLine, struct utmp * const resultEntryBuf)
 {
-    struct utmp   searchEntry;
-    struct utmp * resultEntry;
-    int           retVal;
+    int      utmpFd;
+    int      found = SNOOPY_FALSE;
 
-    // Prepare the search conditions
-    strncpy(searchEntry.ut_line, ttyLine, UT_LINESIZE);
-    searchEntry.ut_line[UT_LINESIZE-1] = '\0';
-
-    // Do the search
-    setutent();
-    retVal = getutline_r(&searchEntry, resultEntryBuf, &resultEntry);
-    endutent();
-
-    // Failure/not found
-    if (retVal != 0) {
+    /*
+     * The utmp file is read directly. setutent()/getutline_r()/endutent() all work on one
+     * file position that is shared by the whole process (behind a lock inside libc), so two
+     * threads looking up their terminals at the same time would disturb each other's search.
+     */
+    utmpFd = open(snoopy_util_utmp_filePath, O_RDONLY | O_CLOEXEC);
+    if (utmpFd < 0) {
         return SNOOPY_FALSE;
     }
 
-    // Found
-    return SNOOPY_TRUE;
+    // Same match as getutline(): a user or login process entry on the given line
+    while (read(utmpFd, resultEntryBuf, sizeof(*resultEntryBuf)) == (ssize_t) sizeof(*resultEntryBuf)) {
+        if (
+            ((USER_PROCESS == resultEntryBuf->ut_type) || (LOGIN_PROCESS == resultEntryBuf->ut_type))
+            &&
+            (0 == strncmp(resultEntryBuf->ut_line, ttyLine, UT_LINESIZE))
+        ) {
+            found = SNOOPY_TRUE;
+            break;
+        }
+    }
+    close(utmpFd);
+
+    return found;
 }
 
 
@@ -164,5 +181,5 @@ int snoopy_util_utmp_getUtmpIpAddrAsString (struct utmp const * const utmpEntry,
  */
 void snoopy_util_utmp_test_setAlternateUtmpFilePath (char const * const utmpPath)
 {
-    utmpname(utmpPath);
+    snoopy_util_utmp_filePath = utmpPath;
 }
